@@ -8,7 +8,7 @@ from vlib import engine, formats, gen, kal, present, runner
 ID = "C16"
 RULE = ("A program is built from 3..6 units over a small pool of generated inputs/configurations: (A) kalign() call; (F) "
         "kalign_read_input of 1..3 files (any readable format) -> kalign_run -> dump -> kalign_write_msa in 1..3 formats -> "
-        "kalign_free_msa; (C) two alignments read into two objects -> kalign_msa_compare -> free both; (R) a run that must be "
+        "kalign_free_msa (a quarter of these align the object twice - the second result must equal the first - and some try to write before aligning, which must fail cleanly); (C) two alignments read into two objects -> kalign_msa_compare -> free both; (R) a run that must be "
         "rejected (type/kind mismatch) -> free. The steps of all units are interleaved by a drawn merge order (several msa "
         "objects alive at once) with 'scribble' steps (malloc/fill/free of drawn sizes and byte patterns: the application's own "
         "heap traffic) in between; validity by construction. The whole program runs in one ASan+UBSan+LSan probe process. "
@@ -58,6 +58,9 @@ def unit(draw, pool):
         u["nfiles"] = draw(st.sampled_from([1, 1, 2, 3]))
         u["infmt"] = draw(st.sampled_from(["fasta", "fasta", "afa", "msf", "clu"]))
         u["outfmts"] = draw(st.lists(st.sampled_from(["fasta", "msf", "clu"]), min_size=1, max_size=3))
+        # aligning the same object a second time must give the first result again; writing before aligning must fail cleanly
+        u["rerun"] = draw(st.integers(0, 3)) == 0
+        u["early_write"] = draw(st.integers(0, 5)) == 0
     elif kind == "C":
         u["seed1"] = draw(st.integers(0, 9999))
         u["seed2"] = draw(st.integers(0, 9999))
@@ -108,10 +111,18 @@ def unit_steps(u, pool, wd, slot0):
             fp = wd.write(present.render_chunk(names[a:b], seqs[a:b], ch).encode("latin-1"), ".in")
             lines.append("read %d 1 %s" % (slot0, fp))
             keys.append((len(lines) - 1, "rc"))
+        if u.get("early_write"):
+            lines.append("write %d fasta %s" % (slot0, wd.path(".early")))
+            keys.append((len(lines) - 1, "early_write_rc"))
         lines.append("run %d %s" % (slot0, kal.cfg_args(u["cfg"])))
         keys.append((len(lines) - 1, "rc"))
         lines.append("dump %d" % slot0)
         keys.append((len(lines) - 1, "dump"))
+        if u.get("rerun") and u["kind"] == "F":
+            lines.append("run %d %s" % (slot0, kal.cfg_args(u["cfg"])))
+            keys.append((len(lines) - 1, "rc"))
+            lines.append("dump %d" % slot0)
+            keys.append((len(lines) - 1, "dump"))
         for fmt in u.get("outfmts", []):
             op = wd.path("." + fmt)
             lines.append("write %d %s %s" % (slot0, fmt, op))
@@ -139,6 +150,8 @@ def extract(steps, base, keys):
         s = steps[base[idx]] if isinstance(base, list) else steps[base + idx]
         if what == "rc":
             out.append(("rc", s.get("rc"), s.get("null")))
+        elif what == "early_write_rc":
+            out.append(("early_write", s.get("rc")))
         elif what == "arr":
             out.append(("arr", s.get("rc"), s.get("alnlen"), s.get("rows")))
         elif what == "dump":
@@ -191,6 +204,8 @@ def check(case):
             interleaved = True
     pr = runner.run_probe(prog, env=runner.LEAK_ENV)
     cl = ["units=%d" % len(units)] + sorted(set("unit=" + u["kind"] for u in units))
+    if any(u.get("rerun") for u in units):
+        cl.append("rerun")
     if interleaved:
         cl.append("interleaved")
     if pr.ended.kind == "leak":
@@ -201,6 +216,15 @@ def check(case):
             return engine.discard("cpu-limit")
         return engine.violation({"what": "process failure in the program", **pr.ended.brief()}, classes=cl, kind="crash")
     in_prog = [extract(pr.steps, pos[u], per_unit[u][1]) for u in range(len(units))]
+    # ---- units that align the same object twice: the second result must be the first one again
+    for ui, u in enumerate(units):
+        dumps = [x for x in in_prog[ui] if x[0] == "dump"]
+        if u.get("rerun") and len(dumps) == 2 and dumps[0] != dumps[1]:
+            return engine.violation({"what": "unit %d: aligning the same object a second time gave a different result" % ui,
+                                     "first": str(dumps[0])[:300], "second": str(dumps[1])[:300]}, classes=cl + ["rerun"])
+        ew = [x for x in in_prog[ui] if x[0] == "early_write"]
+        if ew and ew[0][1] == 0:
+            return engine.violation({"what": "unit %d: kalign_write_msa succeeded on an object that has not been aligned" % ui}, classes=cl)
     # ---- each unit alone in a fresh process
     for ui, u in enumerate(units):
         lines, keys = unit_steps(u, pool, wd, 0)
